@@ -113,7 +113,7 @@ def _native_boundaries(name):
 
 def chunks(tier, props):
     out = []
-    lens = (1, 2, 3, 4) if tier == "quick" else (1, 2, 3, 4, 5, 6, 7, 8)
+    lens = (1, 2, 3, 4) if tier == "quick" else (1, 2, 3, 4, 5, 6)
     progs = ["fn.c", "ty.h"] if tier == "quick" else list(BASE_SRC)
     for name in progs:
         nb = len(boundaries(name))
